@@ -684,3 +684,119 @@ def restore_groups(sess, rng, count, kinds=KINDS, games=6):
             else:
                 sess.predict(op, mh, lt, group=gid, role="base")
                 sess.predict(op, mh, rt, group=gid, role="same")
+
+
+# ============================================================================= malformed calls (C13)
+class _Opaque:
+    pass
+
+
+def bad_values(mh, foreign_mh, own):
+    """Values substituted at every position of an otherwise valid call.  The specification,
+    not this list, decides which substitutions make the call malformed."""
+    return [
+        ("none", None), ("int", 3), ("float", 2.5), ("str", "abc"), ("tuple", (1, 2)), ("dict", {"a": 1}),
+        ("set", {1}), ("obj", _Opaque()), ("empty_list", []), ("nested_list", [[1], [2]]),
+        ("foreign", foreign_mh.m.rating(20.0, 5.0)), ("own_rating", own), ("list_of_rating", [mh.m.rating(21.0, 4.0)]),
+        ("true", True), ("neg", -2), ("zero_f", -0.0),
+    ]
+
+
+def _subst(container, path, value):
+    """Copy of nested lists with the element at path replaced (path () replaces the whole)."""
+    if not path:
+        return value
+    c = list(container)
+    c[path[0]] = _subst(container[path[0]], path[1:], value)
+    return c
+
+
+def malformed_campaign(sess, rng, count, kinds=KINDS, ops=("rate", "win", "draw", "rank")):
+    """count base games; every bad value at every position of teams / ranks / scores, wrong lengths,
+    too few teams, empty teams, both selectors; plus unusual well-formed selectors."""
+    for _ in range(count):
+        kind = rng.choice(kinds)
+        foreign_kind = rng.choice([k for k in KINDS if k != kind])
+        params, g, beta = pick_model_params(rng, kind, simple=True)
+        params.setdefault("tau", beta / 50.0)
+        if params["tau"] == 0.0:
+            params["tau"] = beta / 50.0
+        shape = pick_shape(rng, 4, 2)
+        n = len(shape)
+        vals = random_vals(rng, shape, beta)
+
+        def fresh():
+            sess.reset()
+            mh = sess.model(kind, gamma=g, **params)
+            fm = sess.model(foreign_kind)
+            teams = make_teams(mh, vals, rng)
+            return mh, fm, teams
+
+        team_paths = [()] + [(i,) for i in range(n)] + [(i, j) for i in range(n) for j in range(shape[i])]
+        sel_paths = [()] + [(i,) for i in range(n)]
+        ranks0 = [rng.randint(0, 3) for _ in range(n)]
+        nb = len(bad_values(*((lambda a: (a[0], a[1], a[2][0][0]))(fresh()))))
+        for op in ops:
+            for path in team_paths:
+                for b in range(nb):
+                    mh, fm, teams = fresh()
+                    name, val = bad_values(mh, fm, teams[0][0])[b]
+                    t2 = _subst(teams, path, val)
+                    if op == "rate":
+                        kw = {"ranks": list(ranks0)} if rng.random() < 0.5 else {}
+                        sess.rate(mh, t2, **kw)
+                    else:
+                        sess.predict(op, mh, t2)
+            # structural: too few teams, an empty team
+            for variant in ["one_team", "no_team", "empty_team", "empty_first"]:
+                mh, fm, teams = fresh()
+                t2 = {"one_team": teams[:1], "no_team": [], "empty_team": teams[:-1] + [[]], "empty_first": [[]] + teams[1:]}[variant]
+                if op == "rate":
+                    sess.rate(mh, t2)
+                else:
+                    sess.predict(op, mh, t2)
+        for sel in ("ranks", "scores"):
+            for path in sel_paths:
+                for b in range(nb):
+                    mh, fm, teams = fresh()
+                    name, val = bad_values(mh, fm, teams[0][0])[b]
+                    if name in ("none", "empty_list") and path == ():
+                        pass  # omitted selector: the specification treats it as not given
+                    if path == () and name in ("str", "tuple", "dict", "set", "int", "float", "true", "obj", "foreign", "own_rating", "neg"):
+                        pass  # truthy non-lists: malformed
+                    if path == () and name == "zero_f":
+                        continue  # falsy non-list selectors are not specified (DESIGN 6/C13)
+                    s2 = _subst(list(ranks0), path, val)
+                    sess.rate(mh, teams, **{sel: s2})
+            for variant in ["short", "long", "both", "both_bad", "bools", "negs", "zeros", "floats", "mixed"]:
+                mh, fm, teams = fresh()
+                if variant == "short":
+                    kw = {sel: list(ranks0)[:-1]}
+                elif variant == "long":
+                    kw = {sel: list(ranks0) + [1]}
+                elif variant == "both":
+                    kw = {"ranks": list(ranks0), "scores": list(ranks0)}
+                elif variant == "both_bad":
+                    kw = {"ranks": list(ranks0), "scores": "abc"}
+                elif variant == "bools":
+                    kw = {sel: [bool(i % 2) for i in range(n)]}
+                elif variant == "negs":
+                    kw = {sel: [-(i + 1) for i in range(n)]}
+                elif variant == "zeros":
+                    kw = {sel: [0 if i % 2 else -0.0 for i in range(n)]}
+                elif variant == "floats":
+                    kw = {sel: [i * 0.5 - 1.0 for i in range(n)]}
+                else:
+                    kw = {sel: [(i if i % 2 else float(i)) for i in range(n)]}
+                sess.rate(mh, teams, **kw)
+        # malformed per-call options are not part of C13 (tau / limit_sigma are not validated by the library)
+
+
+def api_groups(sess):
+    """C19: the five classes expose the same operations with the same signatures."""
+    sess.reset()
+    mhs = [sess.model(k) for k in KINDS]
+    for what in ("model", "rating"):
+        gid = GID.new("C19", "api")
+        for i, mh in enumerate(mhs):
+            sess.api(mh, what, group=gid, role="same" if i else "base")
